@@ -582,5 +582,33 @@ pub open spec fn self_call(rt: &Rt) -> bool { rt.msg.caller == rt.msg.receiver }
         !self_call(old(rt)) ==> r.is_err() && final(rt).tx_log@.len() == 0,
 //@ end
 
+//@ fn actors/multisig/src/lib.rs Actor::approve free tx0="State;approve_tx0;&mut __vx_st, rt, approver, params" ret=res sub0="Self :: approve_transaction=>approve_transaction"
+    requires ms_entry(old(rt)),
+    ensures
+        /*C11*/ res.is_ok() ==> final(rt).validated@.is_some(),
+        res.is_ok() ==> final(rt).tx_log@.len() >= 1 && ({
+            let s0 = rt_state::<State>(old(rt).state_id@);
+            let caller = old(rt).msg.caller;
+            let t0 = txns_of(s0)[params.id];
+            // "only signers can ... approve", and only an existing pending transaction
+            &&& s0.signers@.contains(caller) && txns_of(s0).dom().contains(params.id)
+            // at most one message leaves the wallet, and it is exactly the pending transaction
+            &&& final(rt).sends@.len() == (if res->Ok_0.applied { 1int } else { 0int })
+            &&& (res->Ok_0.applied ==> ({
+                    let m = final(rt).sends@[0];
+                    &&& m.to == t0.to && m.method == t0.method && m.value == t0.value@ && m.params == Some(IpldBlock { h: t0.params.h })
+                    // quorum: the approvals counted (the earlier ones, plus this caller unless they already sufficed) reach the threshold
+                    &&& (t0.approved@.len() >= s0.num_approvals_threshold || (!t0.approved@.contains(caller) && t0.approved@.len() + 1 >= s0.num_approvals_threshold))
+                    // the lock is respected
+                    &&& t0.value@ >= 0 && old(rt).balance@ >= t0.value@
+                    &&& (t0.value@ == 0 || old(rt).balance@ - t0.value@ >= locked_spec(s0.initial_balance@, s0.unlock_duration as int, old(rt).epoch - s0.start_epoch))
+                    // and it is gone from the pending table afterwards
+                    &&& !txns_of(rt_state::<State>(final(rt).tx_log@.last())).dom().contains(params.id)
+                }))
+            &&& (!res->Ok_0.applied ==> !t0.approved@.contains(caller) && t0.approved@.len() + 1 < s0.num_approvals_threshold)
+        }),
+        res.is_err() ==> final(rt).sends@.len() == 0,
+//@ end
+
 } // verus!
 fn main() {}
